@@ -518,7 +518,9 @@ int main(int argc, char** argv) {
         if (family == "fcmp") d.fcmp();            \
         else dispatch(d, family);                  \
     }
-        VH_FLOAT_TYPES(RUN_F)
+        if (!std::getenv("VH_SCALAR_ONLY")) {
+            VH_FLOAT_TYPES(RUN_F)
+        }
 #if VH_G(32)
         { FSDrv<float> d("s32f", seed); dispatch(d, family); }
 #endif
